@@ -379,6 +379,7 @@ var Catalogue = []Rule{
 		Apply: func(bb *blockBuilder) {
 			tx := bb.spendKind("cltv", 0, nil, nil)
 			tx.LockTime, tx.TxIn[0].Sequence = 1, 0
+			bb.lead(tx)
 			bb.addValid(tx)
 		},
 		EdgeNeed: func(bb *blockBuilder) bool { return bb.hasSpecial("cltv", 0) },
@@ -388,6 +389,7 @@ var Catalogue = []Rule{
 			if bb.height >= bb.f.Params.BIP0065Height {
 				tx.LockTime = 2 // in force: exactly met
 			}
+			bb.lead(tx) // input 0 is final, the executing input is not: OP_CHECKLOCKTIMEVERIFY looks at its own input
 			bb.addValid(tx)
 		}},
 	{Name: "csv-not-met", Stage: "connect", // the script requires a relative lock of 2, the input's sequence says 1
@@ -395,12 +397,14 @@ var Catalogue = []Rule{
 		Apply: func(bb *blockBuilder) {
 			tx := bb.spendKind("csv", 1, nil, nil)
 			tx.Version, tx.LockTime, tx.TxIn[0].Sequence = 2, 0, 1
+			bb.lead(tx)
 			bb.addValid(tx)
 		},
 		EdgeNeed: func(bb *blockBuilder) bool { return bb.hasSpecial("csv", 2) },
 		Edge: func(bb *blockBuilder) {
 			tx := bb.spendKind("csv", 2, nil, nil)
 			tx.Version, tx.LockTime, tx.TxIn[0].Sequence = 2, 0, 2
+			bb.lead(tx) // input 0 carries the disable flag, the executing input the lock: OP_CHECKSEQUENCEVERIFY looks at its own input
 			bb.addValid(tx)
 		}},
 	{Name: "multisig-dummy-not-null", Stage: "connect", // NULLDUMMY comes with segwit
@@ -436,6 +440,20 @@ func (bb *blockBuilder) spendKind(kind string, minAge int32, sigScript []byte, w
 	tx.TxIn[0].SignatureScript = sigScript
 	tx.TxIn[0].Witness = wit
 	return tx
+}
+
+// lead puts an ordinary, final input in front of the special one (when a
+// generic coin is free): rules that read "the executing input" then differ
+// from rules that read input 0.  It returns the index of the special input.
+func (bb *blockBuilder) lead(tx *wire.MsgTx) int {
+	cd, ok := bb.freeCoin(func(c Coin) bool { return anyCoin(c) && bb.spendable(c) })
+	if !ok {
+		return 0
+	}
+	in := &wire.TxIn{PreviousOutPoint: cd.op, Sequence: wire.MaxTxInSequenceNum}
+	tx.TxIn = append([]*wire.TxIn{in}, tx.TxIn...)
+	tx.TxOut[0].Value += cd.c.Amount
+	return 1
 }
 
 // spendWitnessDrop spends a pay-to-witness-script-hash coin whose script drops
